@@ -83,9 +83,38 @@ def cases(draw):
         m, oa, on = bodies[w]
         L.append([format(addr, "x"), m, list(oa), list(on)])
         addr += draw(st.integers(1, 7))
+    with_range = draw(st.integers(0, 5)) == 0
+    if with_range:
+        # a rule with valid_addr_range: direct call/jmp targets in range are presented as `valid_addr` (C18), so records change
+        # their length - the scan and the reported addresses must not care.  Only unconditional direct branches are used
+        # (what C18 leaves unspecified is kept out of the listing).
+        assume(all(not x[0].startswith(("j", "call", "loop")) for x in bodies))
+        pre = []
+        pa = 0x100
+        for _ in range(draw(st.integers(3, 8))):
+            tgt = format(draw(st.integers(0x1000, 0xffffff)), "x")
+            pre.append([format(pa, "x"), draw(st.sampled_from(["call", "jmp"])), [tgt + " <f>"], [tgt]])
+            pa += 5
+        shift = pa + 16
+        for rec in L:
+            rec[0] = format(int(rec[0], 16) + shift, "x")
+        k_ins = draw(st.integers(0, len(L)))
+        L = pre + L if draw(st.booleans()) else L[:k_ins] + [[format(int(L[k_ins - 1][0], 16) + 1 if k_ins else shift - 8, "x")] + pre[0][1:]] + L[k_ins:] + []
+        # keep addresses strictly increasing where an extra branch was inserted in the middle
+        last = -1
+        for rec in L:
+            v = int(rec[0], 16)
+            if v <= last:
+                v = last + 1
+                rec[0] = format(v, "x")
+            last = v
+    if draw(st.integers(0, 5)) == 0 and not with_range:
+        w_ = draw(st.sampled_from([2, 4, 8, 16]))  # zero padded address column, as in raw-binary / object dumps
+        for rec in L:
+            rec[0] = rec[0].zfill(w_)
     assume(names_ok(pattern))
     flags = draw(st.sampled_from([[False, False], [False, False], [True, False], [False, True], [True, True]]))
-    return {"template": t, "listing": L, "pattern": pattern, "restart": restart is not None, "flags": flags}
+    return {"template": t, "listing": L, "pattern": pattern, "restart": restart is not None and not with_range, "flags": flags, "range": with_range}
 
 
 def strategy(tier):
@@ -221,6 +250,10 @@ def evaluate(case):
     ev = Eval()
     L = case["listing"]
     NV = norm_view(L)
+    cfg = None
+    if case.get("range"):
+        cfg = {"valid_addr_range": {"min": "0", "max": "ffffffffffff"}}
+        NV = [(a_, m_, ["valid_addr"]) if m_ in ("call", "jmp") and len(o_) == 1 and all(ch in "0123456789abcdef" for ch in o_[0]) else (a_, m_, o_) for a_, m_, o_ in NV]
     mn_full, op_full = case.get("flags", [False, False])
     ref = Ref(NV, mn_full, op_full)
     if ref.spans_empty(case["pattern"]):
@@ -228,7 +261,7 @@ def evaluate(case):
         return ev
     spans = ref.spans(case["pattern"])
     text = render(att_view(L))
-    res = run_all_modes(jasm_io.make_doc(case["pattern"], mn_full or None, op_full or None), text, None, combos=[("list", "all", False), ("list", "first", False), ("list", "all", True), ("list", "first", True)])
+    res = run_all_modes(jasm_io.make_doc(case["pattern"], mn_full or None, op_full or None, config=cfg), text, None, combos=[("list", "all", False), ("list", "first", False), ("list", "all", True), ("list", "first", True)])
     ev.subcases = 4
     outs = {}
     for key, r in res.items():
@@ -250,6 +283,8 @@ def evaluate(case):
             ev.dev("address-only-first-differs", expected=want[:1], observed=outs[("list", "first", True)])
     starts = sorted(spans)
     ev.tags = [f"template={case['template']}"]
+    if case.get("range"):
+        ev.tags.append("with-valid-addr-range")
     if case["restart"]:
         ev.tags.append("repeated-addresses")
     overl = adj = False
